@@ -2,7 +2,7 @@
     arguments already hex-decoded by the OCaml driver, result printed as one
     canonical line.  The Go (and C++) drivers print the same lines from the
     implementation.  No proofs. *)
-From GFS Require Import Base Dec Regex GenRegex GenPadTables Ranges Pad FrameSet Compress Path Seq Listing Seqinfo SpecRange SpecSeq.
+From GFS Require Import Base Dec Regex GenRegex GenPadTables Ranges Pad FrameSet Compress Path Seq Listing Seqinfo Export GenStorage SpecRange SpecSeq.
 Local Open Scope Z_scope.
 
 Definition hexd (n : nat) : byte := if Nat.ltb n 10 then (48 + n)%nat else (87 + n)%nat.
@@ -232,6 +232,42 @@ Definition dispatch (args : list bytes) : bytes :=
                kz "end" (sr_end r) ++ kz "length" (sr_len r) ++ kz "zfill" (sr_zfill r) ++ kb "hasRange" (sr_hasrange r)
         | other => outcome_tag other
         end
+      | _ => s2b "BADARGS"
+      end
+    else if beq op (s2b "c20") then
+      (* which-map threads schedule: threads "A,I0,D0;G0,L" ("-" = no ops), schedule "0,1,1,0" *)
+      match rest with
+      | [which; thr; sched] =>
+        let P := if beq which (s2b "fs") then frameset_progs else fileseq_progs in
+        let parse_op (o : bytes) : opk :=
+            match o with
+            | 65%nat :: _ => OAdd
+            | 73%nat :: k => OIncref (Z.to_nat (argz k))
+            | 68%nat :: k => ODecref (Z.to_nat (argz k))
+            | 71%nat :: k => OGet (Z.to_nat (argz k))
+            | 76%nat :: _ => OLen
+            | 83%nat :: k => OStale 424242 (Z.to_nat (argz k))
+            | _ => OLen
+            end in
+        let threads := map (fun t => if beq t [c_minus] then [] else map parse_op (split_on c_comma t))
+                           (split_on 59%nat thr) in
+        let sch := if beq sched [c_minus] then [] else map (fun z => Z.to_nat z) (argzl sched) in
+        (* the harness appends a round-robin tail long enough to finish every thread *)
+        let w := run_schedule P 88172645463325252 threads sch in
+        let slot_state (id : Z) : bytes :=
+            match map_find (g_map (w_g w)) id with
+            | Some c => itoa (nth c (g_cells (w_g w)) 0)
+            | None => [120%nat]
+            end in
+        let ids_ok := forallb (fun id => negb (id =? 0)) (w_slots w) &&
+                      (Nat.eqb (List.length (nodup Z.eq_dec (w_slots w))) (List.length (w_slots w))) in
+        s2b "OK" ++ kz "len" (Z.of_nat (List.length (g_map (w_g w)))) ++
+        kv "slots" (match w_slots w with [] => [] | _ => join_with c_comma (map slot_state (w_slots w)) end) ++
+        kv "log" (match w_log w with [] => [] | _ =>
+                    join_with c_comma (map (fun e => let '(t, k, v) := e in
+                                                     itoa (Z.of_nat t) ++ [58%nat] ++ itoa k ++ [58%nat] ++ itoa v) (w_log w)) end) ++
+        kv "ids" (if ids_ok then s2b "true" else s2b "false") ++
+        kb "quiescent" (quiescent w)
       | _ => s2b "BADARGS"
       end
     else if beq op (s2b "unamb") then
